@@ -33,4 +33,21 @@ namespace vf {
   VF_E T midpoint_##S(T a, T b) { return etl::midpoint(a, b); }
 VF_FLT(X)
 #undef X
+
+// the f-suffixed spellings and the integral overloads are separate function bodies: each is pinned to the overload it must equal
+#define VF_SFX1(X) X(floor) X(ceil) X(trunc) X(round) X(rint) X(fabs)
+#define X(fn) VF_E float fn##f_s(float x) { return etl::fn##f(x); }
+VF_SFX1(X)
+#undef X
+#define VF_SFX2(X) X(copysign) X(fmin) X(fmax) X(fdim) X(fmod) X(remainder) X(nextafter) X(hypot)
+#define X(fn) VF_E float fn##f_s(float x, float y) { return etl::fn##f(x, y); }
+VF_SFX2(X)
+#undef X
+VF_E float fmaf_s(float x, float y, float z) { return etl::fmaf(x, y, z); }
+VF_E long lrintf_s(float x) { return etl::lrintf(x); }
+VF_E long long llrintf_s(float x) { return etl::llrintf(x); }
+#define VF_INT1(X) X(floor) X(ceil) X(trunc) X(round)
+#define X(fn) VF_E double fn##_i(int x) { return etl::fn(x); } VF_E double fn##_ll(long long x) { return etl::fn(x); } VF_E double fn##_u(unsigned x) { return etl::fn(x); }
+VF_INT1(X)
+#undef X
 }
